@@ -553,3 +553,177 @@ def ps_reachable(body, start=0, avoid=(), max_states=200000):
             if n not in avoid:
                 work.append((n, fenv))
     return out
+
+
+def sccs(body):
+    """strongly connected components (with at least one cycle) of the live normal-edge CFG: list of frozensets"""
+    live = sorted(body.live_blocks())
+    index = {}
+    low = {}
+    stack = []
+    on = set()
+    out = []
+    counter = [0]
+    import sys
+    sys.setrecursionlimit(10000)
+
+    def strong(v):
+        index[v] = low[v] = counter[0]
+        counter[0] += 1
+        stack.append(v)
+        on.add(v)
+        for w in body.succ(v):
+            if w not in index:
+                strong(w)
+                low[v] = min(low[v], low[w])
+            elif w in on:
+                low[v] = min(low[v], index[w])
+        if low[v] == index[v]:
+            comp = set()
+            while True:
+                w = stack.pop()
+                on.discard(w)
+                comp.add(w)
+                if w == v:
+                    break
+            if len(comp) > 1 or v in body.succ(v):
+                out.append(frozenset(comp))
+
+    for v in live:
+        if v not in index:
+            strong(v)
+    return out
+
+
+def loop_exit_edges(body, comp):
+    """edges (src, dst) leaving a loop component, ignoring edges into blocks that only lead to `unreachable`"""
+    out = []
+    for s in comp:
+        for d in body.succ(s):
+            if d not in comp and not body.is_unreachable_block(d):
+                out.append((s, d))
+    return out
+
+
+_CMP = {"Lt": lambda a, b: a < b, "Le": lambda a, b: a <= b, "Gt": lambda a, b: a > b, "Ge": lambda a, b: a >= b,
+        "Eq": lambda a, b: a == b, "Ne": lambda a, b: a != b}
+
+
+def guard_value_set(body, sink_bb, is_x, universe=range(0, 12)):
+    """values n of the quantity recognised by is_x(operand) under which sink_bb can be reached, judging only
+    comparisons of that quantity with a constant that dominate sink_bb and one of whose edges excludes sink_bb"""
+    allowed = set(universe)
+    for (bb, op, a, b, d, tt, ft) in comparisons(body):
+        if tt is None or ft is None or not body.dominates(bb, sink_bb):
+            continue
+        ka, kb = const_eval(body, a), const_eval(body, b)
+        if is_x(a) and kb is not None:
+            f = lambda n: _CMP[op](n, kb)
+        elif is_x(b) and ka is not None:
+            f = lambda n: _CMP[op](ka, n)
+        else:
+            continue
+        via_t = sink_bb in body.reachable(tt, avoid=[bb])
+        via_f = sink_bb in body.reachable(ft, avoid=[bb])
+        if via_t and not via_f:
+            allowed &= {n for n in universe if f(n)}
+        elif via_f and not via_t:
+            allowed &= {n for n in universe if not f(n)}
+    return allowed
+
+
+def variant_reachable(body, adt_pat, variants, sinks, max_states=50000):
+    """{sink_bb: set of variants} — for each assumed value of THE enum-typed quantity tested in this body (all `==`/`!=` calls with an
+    operand of that enum type against a constant variant, and all switches on a discriminant of that type, are taken to test the same
+    quantity), the sink blocks reachable by a path-sensitive walk that decides those tests and tracks constant-bool temporaries."""
+    from factlib import resolve_const
+    rx = re.compile(adt_pat)
+    sinks = set(sinks)
+    result = {s: set() for s in sinks}
+    eqs = {}
+    for c in body.calls():
+        if c.callee and c.callee.endswith(("::eq", "::ne")) and len(c.args) == 2 and any(rx.search(t.replace("&", "").strip()) or rx.search(t) for t in c.argtys):
+            var = None
+            for a in c.args:
+                k = resolve_const(body, a)
+                if k and k.get("variant"):
+                    var = k["variant"]
+            if var:
+                eqs[c.dest[0]] = (var, c.bb, c.callee.endswith("::ne"))
+    for assume in variants:
+        seen = set()
+        work = [(0, ())]
+        while work and len(seen) < max_states:
+            bb, env = work.pop()
+            if (bb, env) in seen:
+                continue
+            seen.add((bb, env))
+            if bb in sinks:
+                result[bb].add(assume)
+            envd = dict(env)
+            for s in body.stmts(bb):
+                if len(s[0]) == 1:
+                    r = s[1]
+                    l = s[0][0]
+                    if r[0] == "use" and r[1][0] == "k":
+                        v = body.kint(r[1])
+                        k = body.kconst(r[1])
+                        if k and k.get("ty") == "bool" and v is not None:
+                            envd[l] = v
+                        else:
+                            envd.pop(l, None)
+                    elif r[0] == "use" and r[1][0] in ("c", "m") and len(r[1][1]) == 1 and r[1][1][0] in envd:
+                        envd[l] = envd[r[1][1][0]]
+                    elif r[0] == "un" and r[1] == "Not" and r[2][0] in ("c", "m") and len(r[2][1]) == 1 and r[2][1][0] in envd:
+                        envd[l] = 1 - envd[r[2][1][0]]
+                    else:
+                        envd.pop(l, None)
+            t = body.term(bb)
+            nxt = None
+            if t[0] == "call":
+                d = t[3][0]
+                if d in eqs and eqs[d][1] == bb:
+                    var, _, neg = eqs[d]
+                    envd[d] = (1 if assume == var else 0) ^ (1 if neg else 0)
+                else:
+                    envd.pop(d, None)
+            if t[0] == "switch":
+                op = t[1]
+                taken = None
+                d = body.disc_of_switch(bb)
+                if d and rx.search(d[1]):
+                    taken = t[3]
+                    for v, tgt in t[2]:
+                        if d[2].get(v) == assume:
+                            taken = tgt
+                elif op[0] in ("c", "m") and len(op[1]) == 1 and op[1][0] in envd:
+                    val = envd[op[1][0]]
+                    taken = t[3]
+                    for v, tgt in t[2]:
+                        if int(v) == val:
+                            taken = tgt
+                nxt = [taken] if taken is not None else None
+            if nxt is None:
+                nxt = body.succ(bb)
+            fenv = tuple(sorted(envd.items()))
+            for n in nxt:
+                work.append((n, fenv))
+    return result
+
+
+def whole_value_stores(body, ty_pat):
+    """places where a value of a type matching ty_pat is replaced wholesale through a reference: `*r = v`, mem::replace/swap/take(r, ..)"""
+    rx = re.compile(ty_pat)
+    out = []
+    for bb, s in body.all_stmts():
+        lhs = s[0]
+        if len(lhs) == 2 and lhs[1] == "*" and rx.search(body.locals[lhs[0]]) and body.locals[lhs[0]].lstrip().startswith("&"):
+            if s[1][0] in ("use", "agg", "callret"):
+                out.append(("%s:%s" % (body.file, s[2]), "store"))
+    for c in body.calls():
+        if c.callee and re.search(r"core::mem::(replace|swap|take)$", c.callee) and c.argtys and rx.search(c.argtys[0]):
+            out.append((c.where(), c.callee.split("::")[-1]))
+        # a call writing its result straight through the reference
+        if c.dest and len(c.dest) == 2 and c.dest[1] == "*" and rx.search(body.locals[c.dest[0]]) and body.locals[c.dest[0]].lstrip().startswith("&"):
+            out.append((c.where(), "store-of-call-result"))
+    return out
